@@ -35,6 +35,7 @@ def build_partition(model, pcls, K, d, I, prefix=""):
     lo = [A.atom("%slo%d" % (prefix, k), real=True) for k in range(d)]
     hi = [A.atom("%shi%d" % (prefix, k), real=True) for k in range(d)]
     dom = A.AList([A.AList([lo[k], hi[k]]) for k in range(d)])
+    I.input_ids |= {id(dom)} | {id(x) for x in dom}
     for k in range(d):
         I.facts.append((lo[k].sym, hi[k].sym))
     part = A.Obj(pcls)
